@@ -20,6 +20,17 @@ package extendeddaemonsetreplicaset
 //@   trusted
 //@   modifies nothing
 //@
+//@ spec fn podSortsBefore(a *corev1.Pod, b *corev1.Pod) bool =
+//@     ite(len(a.Spec.NodeName) != 0 && len(b.Spec.NodeName) == 0, true,
+//@     ite(len(a.Spec.NodeName) == 0 && len(b.Spec.NodeName) != 0, false,
+//@     ite(a.ObjectMeta.CreationTimestamp.Time == b.ObjectMeta.CreationTimestamp.Time, a.ObjectMeta.Name < b.ObjectMeta.Name,
+//@         a.ObjectMeta.CreationTimestamp.Time < b.ObjectMeta.CreationTimestamp.Time)))
+//@
+//@ func (sortPodByNodeName).Less
+//@   transparent
+//@   requires 0 <= i && i < len(o) && 0 <= j && j < len(o) && o[i] != nil && o[j] != nil
+//@   ensures [C01] scheduled-pods-first-then-oldest-then-name: result <==> podSortsBefore(o[i], o[j])
+//@
 //@ func FilterPodsByNode
 //@   trusted
 //@   modifies nothing
@@ -56,7 +67,13 @@ package extendeddaemonsetreplicaset
 //@   modifies nothing
 //@   ensures [C11,C12] migrated-pod-list-is-restricted-to-the-namespace: forall k int :: lognew(k) && logverb(k) == "List" ==> lognamespaced(k) && logns(k) == ds.ObjectMeta.Namespace
 //@   ensures [C12] only-reads: forall k int :: lognew(k) ==> logverb(k) == "List" || logverb(k) == "Get"
-//@   loop 1 invariant true
+//@   ensures [C12] only-pods-owned-by-the-named-old-daemonset: result1 == nil ==> result != nil && forall i int :: 0 <= i && i < len(result.Items) ==>
+//@             exists q int :: 0 <= q && q < len(result.Items[i].ObjectMeta.OwnerReferences) && result.Items[i].ObjectMeta.OwnerReferences[q].Kind == "DaemonSet"
+//@                 && result.Items[i].ObjectMeta.OwnerReferences[q].Name == old(ds.ObjectMeta.Annotations["extendeddaemonset.datadoghq.com/old-daemonset"])
+//@   loop 1 invariant filterPods == nil || freshroot(filterPods)
+//@   loop 1 invariant [C12] forall i int :: 0 <= i && i < len(filterPods) ==>
+//@             exists q int :: 0 <= q && q < len(filterPods[i].ObjectMeta.OwnerReferences) && filterPods[i].ObjectMeta.OwnerReferences[q].Kind == "DaemonSet"
+//@                 && filterPods[i].ObjectMeta.OwnerReferences[q].Name == oldDsName
 //@   loop 2 invariant true
 //@
 //@ import v1 "github.com/DataDog/extendeddaemonset/api/v1alpha1"
@@ -186,3 +203,45 @@ package extendeddaemonsetreplicaset
 //@   ensures [C20] as-many-keys-as-values: len(result.Metrics[0].LabelKeys) == 2 + len(cast(ifaceval(obj), "*v1.ExtendedDaemonSetReplicaSet").ObjectMeta.Labels) && len(result.Metrics[0].LabelValues) == len(result.Metrics[0].LabelKeys)
 //@   ensures [C20] label-value-belongs-to-its-key: forall j int :: 0 <= j && j < len(cast(ifaceval(obj), "*v1.ExtendedDaemonSetReplicaSet").ObjectMeta.Labels) ==>
 //@             exists key string :: (key in cast(ifaceval(obj), "*v1.ExtendedDaemonSetReplicaSet").ObjectMeta.Labels) && result.Metrics[0].LabelKeys[2 + j] == utils.sanitizeLabelName(key) && result.Metrics[0].LabelValues[2 + j] == cast(ifaceval(obj), "*v1.ExtendedDaemonSetReplicaSet").ObjectMeta.Labels[key]
+//@
+//@ import metav1 "k8s.io/apimachinery/pkg/apis/meta/v1"
+//@ import labels "k8s.io/apimachinery/pkg/labels"
+//@ import strategy "github.com/DataDog/extendeddaemonset/controllers/extendeddaemonsetreplicaset/strategy"
+//@
+//@ spec fn settingSelects(s *v1.ExtendedDaemonsetSetting, n *corev1.Node) bool =
+//@     snd(metav1.LabelSelectorAsSelector(&s.Spec.NodeSelector)) == nil
+//@     && fst(metav1.LabelSelectorAsSelector(&s.Spec.NodeSelector)).Matches(labels.Set(n.ObjectMeta.Labels))
+//@
+//@ func (*Reconciler).getExtendedDaemonsetSettings
+//@   logs
+//@   requires r != nil && r.client != nil && eds != nil && eds.ObjectMeta.Namespace != ""
+//@   modifies nothing
+//@   ensures [C12,C18] settings-are-listed-in-the-daemonset-namespace: loglen() == old(loglen()) + 1 && logverb(old(loglen())) == "List"
+//@             && lognamespaced(old(loglen())) && logns(old(loglen())) == eds.ObjectMeta.Namespace
+//@   ensures [C18] only-settings-that-reference-this-daemonset: result1 == nil ==> forall i int :: 0 <= i && i < len(result) ==>
+//@             result[i] != nil && result[i].Spec.Reference != nil && result[i].Spec.Reference.Name == eds.ObjectMeta.Name
+//@   ensures result == nil || freshroot(result)
+//@   loop 1 invariant outputList == nil || freshroot(outputList)
+//@   loop 1 invariant forall i int :: 0 <= i && i < len(outputList) ==>
+//@             outputList[i] != nil && outputList[i].Spec.Reference != nil && outputList[i].Spec.Reference.Name == eds.ObjectMeta.Name
+//@
+//@ func (*Reconciler).getNodeList
+//@   logs
+//@   requires r != nil && r.client != nil && eds != nil && replicaset != nil && eds.ObjectMeta.Namespace != ""
+//@   modifies nothing
+//@   ensures [C11,C18] only-lists: forall k int :: lognew(k) ==> logverb(k) == "List"
+//@   ensures [C18] a-setting-affects-a-node-only-if-valid-and-selecting-it: result1 == nil ==> result != nil && forall i int :: 0 <= i && i < len(result.Items) ==>
+//@             result.Items[i] != nil && result.Items[i].Node != nil && (result.Items[i].ExtendedDaemonsetSetting != nil ==>
+//@                 result.Items[i].ExtendedDaemonsetSetting.Status.Status == "valid"
+//@                 && result.Items[i].ExtendedDaemonsetSetting.Spec.Reference != nil && result.Items[i].ExtendedDaemonsetSetting.Spec.Reference.Name == eds.ObjectMeta.Name
+//@                 && settingSelects(result.Items[i].ExtendedDaemonsetSetting, result.Items[i].Node))
+//@   loop 1 invariant nodeItemList != nil && fresh(nodeItemList) && loopfresh(nodeItemList.Items)
+//@   loop 1 invariant forall i int :: 0 <= i && i < len(nodeItemList.Items) ==>
+//@             nodeItemList.Items[i] != nil && nodeItemList.Items[i].Node != nil && (nodeItemList.Items[i].ExtendedDaemonsetSetting != nil ==>
+//@                 nodeItemList.Items[i].ExtendedDaemonsetSetting.Status.Status == "valid"
+//@                 && nodeItemList.Items[i].ExtendedDaemonsetSetting.Spec.Reference != nil && nodeItemList.Items[i].ExtendedDaemonsetSetting.Spec.Reference.Name == eds.ObjectMeta.Name
+//@                 && settingSelects(nodeItemList.Items[i].ExtendedDaemonsetSetting, nodeItemList.Items[i].Node))
+//@   loop 1 invariant forall i int :: 0 <= i && i < len(extendedDaemonsetSettings) ==>
+//@             extendedDaemonsetSettings[i] != nil && extendedDaemonsetSettings[i].Spec.Reference != nil && extendedDaemonsetSettings[i].Spec.Reference.Name == eds.ObjectMeta.Name
+//@   loop 1 modifies nodeItemList.Items
+//@   loop 2 invariant true
